@@ -7,6 +7,8 @@ requests
         → {"r":[ id | null …],"used":[…sorted],"pos":searchPos}      (one entry per script step)
   {"op":"fix","init":[[var,idx]…],"script":[["s",var]|["d",var]…]}
         → {"tables":[[[var,idx]…] …]}   (table after init, then after every step; dict order)
+  {"op":"fixtabs","init":[[var,idx]…],"script":[["s",t,v]|["d",t,v]|["clr",t]|["cp",t',t]|["ctor",t',t]…]}
+        → {"tables":[[table0|null,table1|null,table2|null] …]}   (after init, then after every step)
   {"op":"hist","cfg":null|[b×8],"ops":[Op…]}
         → {"steps":[Obs…]}  one observation per operation
      Op   = ["newmap"] | ["ent",r,m,des,node,[solidRegs],[[var,idx]…]] | ["addent",r] | ["rment",r]
@@ -163,6 +165,28 @@ def handle (j : Json) : Except String Json := do
       let v ← (a[1]!).getNat?
       t := if k == "s" then fxSet t v else fxDel t v
       out := out.push (jFix t)
+    pure (Json.mkObj [("tables", Json.arr out)])
+  | "fixtabs" =>
+    let init ← pairList (← j.getObjVal? "init")
+    let script ← (← j.getObjVal? "script").getArr?
+    let dump (T : Nat → Option Fix) : Json :=
+      Json.arr ((List.range 3).map fun i => match T i with | some f => jFix f | none => Json.null).toArray
+    let mut T := fxTabInit init
+    let mut out : Array Json := #[dump T]
+    for st in script do
+      let a ← st.getArr?
+      let k ← (a[0]!).getStr?
+      let x ← (a[1]!).getNat?
+      let y ← if a.size > 2 then (a[2]!).getNat? else pure 0
+      let op ← match k with
+        | "s" => pure (FxOp.set x y)
+        | "d" => pure (FxOp.del x y)
+        | "clr" => pure (FxOp.clear x)
+        | "cp" => pure (FxOp.copy x y false)
+        | "ctor" => pure (FxOp.copy x y true)
+        | _ => throw s!"unknown fixtabs op {k}"
+      T := fxTabStep T op
+      out := out.push (dump T)
     pure (Json.mkObj [("tables", Json.arr out)])
   | "hist" =>
     let c ← cfgOf (← j.getObjVal? "cfg")
